@@ -1,6 +1,7 @@
 package c06
 
 import (
+	"bytes"
 	"encoding/hex"
 	"encoding/json"
 	"fmt"
@@ -155,6 +156,20 @@ func runRoutes(c *fw.Ctx) {
 				cuts = append(cuts, k)
 			}
 			sort.Ints(cuts)
+			if i%12 == 7 && strings.Contains(strings.Join(order, " "), "http") {
+				// a first message that needs most of the matching buffer (8 KiB): an HTTP request with a long header, delivered
+				// whole and then in equal segments of a usual size (several prefetch rounds of less than a full chunk each)
+				L := 6200 + r.Intn(1900)
+				head := "GET /big HTTP/1.1\r\nHost: example.com\r\nCookie: k="
+				stream = append([]byte(head), bytes.Repeat([]byte{'a' + byte(r.Intn(26))}, L-len(head)-4)...)
+				stream = append(stream, "\r\n\r\n"...)
+				seg := []int{1448, 1460, 1000, 536, 1200, 2000, 4000}[r.Intn(7)]
+				cuts = nil
+				for k := seg; k < len(stream); k += seg {
+					cuts = append(cuts, k)
+				}
+				proto, ppLen = "http", 0
+			}
 			if !c.Mine(idx) {
 				continue
 			}
